@@ -365,7 +365,10 @@ func CheckDestKinds(run *core.Run, prog *load.Program) {
 					caller = load.FuncName(cfn)
 				}
 				key := fmt.Sprintf("%s→%s#%s", caller, load.FuncName(fn), sig.Params().At(ai).Name())
-				run.Check("G-KIND/argument", key+":"+types.ExprString(a), prog.Pos(cs.call.Pos()), got == want, fmt.Sprintf("%s passes %s, a %s, as parameter %q of %s, which uses it as a %s: the decision whether -pkg names the source package is then made on the wrong kind of string (e.g. `-pkg <same name>` is not recognised and the generated file imports its own package)", caller, types.ExprString(a), got, sig.Params().At(ai).Name(), load.FuncName(fn), want))
+				_ = key
+				// keyed by the kinds that meet, not by who passes what to whom: the same mix-up keeps its key
+				// when helpers are renamed or split
+				run.Check("G-KIND/argument", got+"-used-as-"+want, prog.Pos(cs.call.Pos()), got == want, fmt.Sprintf("%s passes %s, a %s, as parameter %q of %s, which uses it as a %s: the decision whether -pkg names the source package is then made on the wrong kind of string (e.g. `-pkg <same name>` is not recognised and the generated file imports its own package)", caller, types.ExprString(a), got, sig.Params().At(ai).Name(), load.FuncName(fn), want))
 			}
 		}
 	}
